@@ -1374,7 +1374,7 @@ def procify(gen, share=0.12):
     together with a start is refused by every Parse)."""
     heads = ('clicopy ', 'clidiff ', 'clisum ', 'clisumcopy ', 'clisumdiff ', 'cliview ', 'cliviewraw ', 'cligenerate ')
     def ok(line):
-        if not line.startswith(heads) or any(t in line for t in (' live=', ' hold=', ' slow=', ' intruder=', ' again=', ' proc=', ' deep=', 'remotedest=1', ' twice=')):
+        if not line.startswith(heads) or any(t in line for t in (' live=', ' hold=', ' slow=', ' ro=', ' intruder=', ' again=', ' proc=', ' deep=', 'remotedest=1', ' twice=')):
             return False
         kv = dict(t.split('=', 1) for t in line.split()[1:] if '=' in t)
         frm, until = kv.get('from', '0'), kv.get('until', '0')
